@@ -34,6 +34,10 @@ var verifSets = []verifRuleSet{
 	13: {rules: []Rule{{Pattern: `[\x80-\xff]+`, Token: 1}, {Pattern: `[a-z][a-z0-9]*`, Token: 2}, {Pattern: `[0-9]+`, Token: 3}, {Pattern: `[ \t]+`, Token: 4}}},
 	14: {rules: []Rule{{Pattern: `ab`, Token: 1}, {Pattern: `abc`, Token: 2}}}, // needs backtracking: rejected
 	15: {rules: []Rule{{Pattern: `<|<=|<<|<<=`, Token: 7}, {Pattern: `=|==`, Token: 8}, {Pattern: `[^<=]`, Token: 9}}},
+	16: {rules: []Rule{{Pattern: `a`, Token: 32}, {Pattern: `[0-9]+`, Token: 1}, {Pattern: `b`, Token: 31}}},                                        // token 32 does not fit a 6-bit cell: must be rejected
+	17: {rules: []Rule{{Pattern: `keywords`, Token: 1}, {Pattern: `[a-z]+`, Token: 2, Precedence: -1}, {Pattern: `[a-zA-Z]+`, Token: 31, Precedence: -2}}}, // 11 DFA states: one more than the packer supports
+	18: {rules: []Rule{{Pattern: `keyword`, Token: 1}, {Pattern: `[a-z]+`, Token: 2, Precedence: -1}, {Pattern: `[a-zA-Z]+`, Token: 31, Precedence: -2}, {Pattern: `[\x80-\xff]`, Token: 30}}}, // 10 states, the limit, with the non-ASCII class
+	19: {rules: []Rule{{Pattern: `[\x00-\x7f]+`, Token: 1}, {Pattern: `[^\x00-\x7f]+`, Token: 2}}},
 }
 
 func verifBuild(set verifRuleSet) (*Scanner, *lex.Tables, error) {
